@@ -57,7 +57,7 @@ def matrix_bincount2d(
 
     # this guy is holding our joint counts, so this will top out at
     # ~4 billion timepoints
-    assert a.shape[1] < 2**32, "No support for trajectories longer than 2^32"
+    assert a.shape[0] < 2**32, "No support for trajectories longer than 2^32"
     assert a.shape[0] == b.shape[0], 'Feature arrays a and b must match in length'
     assert a.max() < n_a, "States indices must be contiguous."
     assert b.max() < n_b, "States indices must be contiguous."
